@@ -41,6 +41,8 @@ var c01Users = []userSpec{
 	{"bob@corp.test", nil, "domain-rule"},
 	{"carol@other.test", []string{"eng"}, "group-rule"},
 	{"dave@other.test", nil, "no-rule"},
+	// (the listed domain, but not as the address's domain: a second '@' follows)
+	{"mallory@corp.test@evil.test", nil, "no-rule-listed-domain-before-a-second-at-sign"},
 	{"", nil, "empty-email"},
 }
 
